@@ -39,7 +39,9 @@ MANIFEST = {
             'pattern must be unchanged; seeded random atoms must be '
             'reproducible, isolated from the outer generator and only yield '
             'what their class documents; operator operands must be pulled '
-            'left to right.',
+            'left to right; a stream driven with next(value) must hand each '
+            'value to the function patterns called in that step, whatever '
+            'plain values or sub-patterns were embedded before them.',
     'note': 'Trusted: the reference interpreter (one clause per class citing '
             'the SuperCollider help text it encodes; the repo guide '
             'docs/guides/patterns.md is empty). Inputs the documentation '
@@ -66,6 +68,10 @@ RULE = (
     'sub-pattern. seeded stage: random atom x seed x embedding form. order '
     'stage: operator/Ptuple trees over call-logging Pcollect leaves; '
     'non-trivial = at least two logged operands of different length. '
+    'inval stage: trees of Pseq/Pser/Pn/Pswitch/Pclump/Plen over numbers '
+    'and Plen(Pfunc(lambda inval: inval), 1..2) leaves, pulled with '
+    'next(1000+k); non-trivial = an input value of a step k >= 1 appears '
+    'beside plain values. '
     'Distinct by sha1 of the canonical case JSON.')
 ASSUMPTIONS = [
     'A pattern ends as soon as a parameter stream it needs a value from has '
@@ -172,6 +178,9 @@ def build(x, funcs=None):
         return getattr(P, t)(REAL_TEST[x['f']], B(x['pat']))
     if t == 'Pif':
         return P.Pif(B(x['cond']), B(x['a']), B(x['b']))
+    if t == 'Pinval':
+        # the value handed to next(): Pfunc's function gets it as argument
+        return P.Pfunc(lambda inval: inval)
     if t == 'unop':
         a = B(x['a'])
         return {'neg': operator.neg, 'abs': abs, 'pos': operator.pos}[
@@ -1074,10 +1083,119 @@ def classify_known(stage, case, viol):
     return None
 
 
+# --- input values -----------------------------------------------------------------
+#
+# A stream may be handed a value with every next(value); Pfunc's function gets
+# the value of the step in which it is called, whatever was embedded before
+# it ("inval", Streams-Patterns-Events tutorial; the library threads it through
+# every __embed__). The reference model has no notion of it: the leaf is
+# modelled as an endless stream of one marker number, and the marker found at
+# position k of the modelled sequence is replaced by the value sent at step k.
+# Only structure patterns that hand a pulled value out in the step they pull
+# it are generated (list patterns, Pn, Plen, Pswitch, Ptuple, Pclump): no
+# arithmetic over the marker, no Pstutter.
+
+MARK = 7777.25
+INVAL0 = 1000
+
+
+def inval_model_spec(x):
+    if isinstance(x, list):
+        return [inval_model_spec(i) for i in x]
+    if isinstance(x, dict):
+        if x['t'] == 'Pinval':
+            return {'t': 'Pn', 'pat': MARK, 'rep': 'inf'}
+        return {k: inval_model_spec(val) for k, val in x.items()}
+    return x
+
+
+def put_invals(val, k):
+    if isinstance(val, (list, tuple)):
+        return type(val)(put_invals(i, k) for i in val)
+    if isinstance(val, float) and val == MARK:
+        return INVAL0 + k
+    return val
+
+
+def run_inval(case, v):
+    spec, n = case['spec'], case['n']
+    model = M.Model(RandomSource(v))
+    with guard():
+        exp, finite = model_eval(inval_model_spec(spec), n, model)
+        exp = [put_invals(val, k) for k, val in enumerate(exp)]
+        s = stm.stream(build(spec))
+        got = []
+        try:
+            for k in range(n + 1):
+                got.append(s.next(INVAL0 + k))
+        except stm.StopStream:
+            pass
+    if finite:
+        v.check(len(got) == len(exp), 'inval_length',
+                lambda: f'next(value): {len(got)} values {short(got)}, '
+                        f'model {len(exp)} {short(exp)}')
+    else:
+        v.check(len(got) == n + 1, 'inval_ended_early',
+                lambda: f'next(value): ended after {short(got)}, model '
+                        f'continues {short(exp)}')
+    m = min(len(got), len(exp))
+    v.check(M.same_seq(got[:m], exp[:m]), 'inval_values',
+            lambda: f'next({INVAL0}+k): {short(got)} model {short(exp)}')
+    flat = [x for val in exp for x in (val if isinstance(val, (list, tuple))
+                                       else [val])]
+    late = any(isinstance(x, int) and x > INVAL0 for x in flat)
+    plain = any(not (isinstance(x, int) and x >= INVAL0) for x in flat)
+    labels = []
+    if late:
+        labels.append('input_value_of_a_later_step')
+    if late and plain:
+        labels.append('plain_values_between')
+    return {'nontrivial': late and plain, 'labels': labels}
+
+
+def inval_cases():
+    num = st.one_of(st.integers(-4, 9),
+                    st.sampled_from([0.5, 2.5, -1.25]))
+    leaf = st.one_of(
+        num, num,
+        st.fixed_dictionaries({'t': st.just('Plen'),
+                               'pat': st.just({'t': 'Pinval'}),
+                               'n': st.integers(1, 2)}))
+
+    def node(children):
+        elems = st.lists(children, min_size=1, max_size=4)
+        reps = st.integers(1, 3)
+        return st.one_of(
+            st.fixed_dictionaries({'t': st.just('Pseq'), 'list': elems,
+                                   'rep': reps, 'off': st.just(0)}),
+            st.fixed_dictionaries({'t': st.just('Pser'), 'list': elems,
+                                   'rep': st.integers(1, 6),
+                                   'off': st.just(0)}),
+            st.fixed_dictionaries({'t': st.just('Pn'), 'pat': children,
+                                   'rep': st.integers(1, 2)}),
+            st.fixed_dictionaries({
+                't': st.just('Pswitch'),
+                'list': st.lists(children, min_size=2, max_size=3),
+                'which': st.fixed_dictionaries({
+                    't': st.just('Pseq'),
+                    'list': st.lists(st.integers(0, 1), min_size=1,
+                                     max_size=4),
+                    'rep': st.integers(1, 2), 'off': st.just(0)})}),
+            st.fixed_dictionaries({'t': st.just('Pclump'), 'pat': children,
+                                   'n': st.integers(1, 3)}),
+            st.fixed_dictionaries({'t': st.just('Plen'), 'pat': children,
+                                   'n': st.integers(1, 5)}),
+        )
+    tree = st.recursive(leaf, node, max_leaves=8).filter(
+        lambda x: isinstance(x, dict) and x['t'] != 'Plen')
+    return st.fixed_dictionaries({'spec': tree, 'n': st.integers(4, 14)})
+
+
 def stages(ctx):
     depth = 5 if ctx.tier == 'thorough' else 4
     return [
         Stage('expr', run_expr, expr_cases(depth), quick=2000, thorough=15000),
         Stage('seeded', run_seeded, seeded_cases(), quick=300, thorough=2000),
         Stage('order', run_order, order_cases(), quick=300, thorough=2000),
+        Stage('inval', run_inval, inval_cases(), quick=400, thorough=3000),
     ]
